@@ -1101,11 +1101,18 @@ class Server:
     async def pass_(self, connection, rest):
         if connection.future.logged.done():
             code, info = "503", "already logged in"
-        elif await self.user_manager.authenticate(connection.user, rest):
-            connection.logged = True
-            code, info = "230", "normal login"
         else:
-            code, info = "530", "wrong password"
+            user = connection.user
+            authenticated = await self.user_manager.authenticate(user, rest)
+            if not connection.future.user.done() or connection.user is not user:
+                # USER was sent again while the password was being checked:
+                # it was given for the previous user and authorises nobody else
+                code, info = "503", "bad sequence of commands"
+            elif authenticated:
+                connection.logged = True
+                code, info = "230", "normal login"
+            else:
+                code, info = "530", "wrong password"
         connection.response(code, info)
         return True
 
